@@ -135,7 +135,7 @@ def main():
             "guard": "MOKAPOT_VERIF",
             "enable": "the ./check wrapper exports MOKAPOT_VERIF=1; /repo is imported in place (editable install), nothing is built",
             "baseline_off_cmd": "cd /repo && env -u MOKAPOT_VERIF /venv/bin/python -m pytest -ra -q -p no:cacheprovider --timeout=900 --continue-on-collection-errors",
-            "source_commits": ["f5054cc"],
+            "source_commits": ["f5054cc", "936d6bb"],
             "add_only": True,
         },
         "engines": [{
